@@ -547,6 +547,12 @@ func compareTwo(cm *comparer, class string, ids []string, a, b obs.Observation, 
 				}
 				if sec.name == "traverse" {
 					d = "differs"
+					for _, x := range append(append([]string{}, sec.a[n]...), sec.b[n]...) {
+						if strings.Contains(x, "invalid") {
+							// one world ends a segment at a literal (ID-less) point of a mixed path
+							d = "segment-ends-at-literal-point"
+						}
+					}
 					for _, f := range a.Features {
 						if f.Kind == "path" && len(f.Pts) > 2 && f.Pts[0] == f.Pts[len(f.Pts)-1] {
 							for _, p := range f.Pts {
